@@ -151,6 +151,7 @@ type FnTrans struct {
 	havocAll          bool
 	lastCall          *ssa.CallCommon // the call whose ghost positions are being executed
 	genCount          int
+	panicCount        int
 	genMerges         map[string]genMerge
 	useBytes          bool
 	sentinels         map[string]string
